@@ -76,9 +76,85 @@ def doubling_unit(res):
     return res
 
 
+def lcd_column_unit(res):
+    """Pb: Frontend.full_analysis_dict, LCD part (real code): for kernels of 3 lines whose lines carry an ARBITRARY previous
+    LatencyLCD mark (any earlier report, any history) and for every result of the LCD search with 0, 1 or 2 cycles (symbolic
+    latencies): Summary.LCD = max cycle latency (0 if none); the LatencyLCD of every row - and the mark left on the line
+    object - is the latency of that line in ONE cycle attaining the maximum, and 0 for every other line."""
+    ex = Engine([REPO + "/" + f for f in ("osaca/parser/instruction_form.py", "osaca/semantics/isa_semantics.py", "osaca/semantics/arch_semantics.py", FE)])
+    ex.no_init |= {"Frontend"}
+    ex.abstract["_header_report_dict"] = lambda ex_, so, a, kw: {}
+    ex.abstract["_selected_port_uops"] = lambda ex_, so, a, kw: []
+    ex.abstract["get_throughput_sum"] = lambda ex_, so, a, kw: [0]
+    ex.abstract["get_ports"] = lambda ex_, so, a, kw: ["0"]
+    ex.abstract["re.sub"] = lambda ex_, so, a, kw: Opaque("line")
+    ex.abstract["get_ISA"] = lambda ex_, so, a, kw: "x86"
+    ex.abstract["get_arch"] = lambda ex_, so, a, kw: "zen2"
+    n = 3
+    prev = [z3.Real(f"previous_mark{i}") for i in range(n)]
+    A1, A2, B1, B2, B3 = z3.Reals("a1 a2 b1 b2 b3")
+    shapes = {"none": [], "one": [("1-2", [(0, A1), (1, A2)])], "two-overlapping": [("1-2", [(0, A1), (1, A2)]), ("2-3", [(1, B1), (2, B2)])],
+              "two-disjoint": [("1", [(0, A1)]), ("2-3", [(1, B1), (2, B2)])], "two-same-members": [("1-2", [(0, A1), (1, A2)]), ("1-2-3", [(0, B1), (1, B2), (2, B3)])]}
+    for shape, cycles in shapes.items():
+        def run():
+            kernel = []
+            for i in range(n):
+                f = ex.instantiate("InstructionForm", kw=dict(mnemonic="op", line_number=i + 1, line=f"op{i}", latency=1, throughput=1, port_pressure=[0]))
+                f.fields.update(_flags=[], _latency_wo_load=1, latency_cp=0, latency_lcd=SNum(prev[i], False))
+                kernel.append(f)
+            dep = {}
+            for key, mem in cycles:
+                lat = mem[0][1]
+                for _, l_ in mem[1:]:
+                    lat = lat + l_
+                dep[key] = {"root": kernel[mem[0][0]], "dependencies": [(kernel[i], SNum(l_, False)) for i, l_ in mem], "latency": SNum(lat, False)}
+            dg = SObj("KernelDG")
+            ex.abstract["get_loopcarried_dependencies"] = lambda ex_, so, a, kw: dep
+            ex.abstract["get_critical_path"] = lambda ex_, so, a, kw: []
+            fe = SObj("Frontend", _machine_model=SObj("MachineModel"), _arch="zen2")
+            ex.extra["kernel"] = kernel
+            return ex.call_method("Frontend", "full_analysis_dict", fe, [kernel, dg])
+
+        paths = ex.explore(run, [x >= 0 for x in (A1, A2, B1, B2, B3)])
+
+        def post(v, p, cycles=cycles):
+            if not isinstance(v, dict):
+                return False
+            rows = v["Kernel"]
+            got = [real_term(r["LatencyLCD"]) for r in rows]
+            marks = [real_term(f.fields["latency_lcd"]) for f in p.extra["kernel"]]
+            lcd = real_term(v["Summary"]["LCD"])
+            g = [got[i] == marks[i] for i in range(n)]
+            if not cycles:
+                return z3.And(g + [lcd == 0] + [got[i] == 0 for i in range(n)])
+            sums = []
+            for key, mem in cycles:
+                t = mem[0][1]
+                for _, l_ in mem[1:]:
+                    t = t + l_
+                sums.append(t)
+            mx = sums[0]
+            for t in sums[1:]:
+                mx = z3.If(t > mx, t, mx)
+            g.append(lcd == mx)
+            # the column shows exactly one cycle attaining the maximum
+            alts = []
+            for (key, mem), t in zip(cycles, sums):
+                col = {i: l_ for i, l_ in mem}
+                alts.append(z3.And([t == mx] + [got[i] == col.get(i, z3.RealVal(0)) for i in range(n)]))
+            g.append(z3.Or(alts))
+            return z3.And(g)
+
+        res.add_paths(paths, post, kind="lcd-column/" + shape, label="Pb")
+    return res
+
+
 def units(tier):
-    from .c16 import partition_unit, extend_path_unit
+    from .c16 import partition_unit, extend_path_unit, postprocess_unit, search_agreement_unit
     return [
+        Unit("C05/check_for_loopcarried_dep/post-processing(sum, members, reported once)", postprocess_unit, "P", [(KDG, "KernelDG.check_for_loopcarried_dep")]),
+        Unit("C05/search-call-agreement(worker = sequential)", search_agreement_unit, "P", [(KDG, "KernelDG._extend_path"), (KDG, "KernelDG.check_for_loopcarried_dep")]),
+        Unit("C05/full_analysis_dict(LCD column and summary, any previous marks)", lcd_column_unit, "Pb", [(FE, "Frontend.full_analysis_dict")]),
         Unit("C05/check_for_loopcarried_dep/partition(kernels >= 50 lines)", partition_unit, "P", [(KDG, "KernelDG.check_for_loopcarried_dep")]),
         Unit("C05/_extend_path", extend_path_unit, "P", [(KDG, "KernelDG._extend_path")]),
         bounded_unit("C05/parallel-search-equals-sequential", "c16_parallel", [(KDG, "KernelDG.check_for_loopcarried_dep")], timeout=1800),
